@@ -178,7 +178,28 @@ func randomCell(r *rand.Rand) core.Opts {
 	if r.Intn(10) == 0 {
 		o.Monitor = true // a passive monitor must not change anything
 	}
+	if r.Intn(8) == 0 {
+		// the thoroughness of the network simplex, also where no network simplex runs and also as the explicit default
+		o.Thoroughness = uptr([]uint{28, 1, 3, 40}[r.Intn(4)])
+	}
+	if r.Intn(3) == 0 {
+		o.Shuffle = 1 + r.Int63n(1<<40) // the options set independent fields: any order of the same options is the same call
+	}
 	return o
+}
+
+// sizeNoise fills, in one case of six that has a size map, the X and Y fields of about half of its entries with arbitrary
+// values (what a caller passes who fills the map from an earlier layout). A size is a width and a height.
+func sizeNoise(r *rand.Rand, o *core.Opts) {
+	if len(o.Sizes) == 0 || r.Intn(6) != 0 {
+		return
+	}
+	o.SizeXY = map[string][2]float64{}
+	for _, id := range sortedKeys(o.Sizes) {
+		if r.Intn(2) == 0 {
+			o.SizeXY[id] = [2]float64{float64(r.Intn(2001)-1000) / 4, float64(r.Intn(2001)-1000) / 4}
+		}
+	}
 }
 
 // tolerance policy of DESIGN 1.5
@@ -218,10 +239,11 @@ func sortedKeys[V any](m map[string]V) []string {
 }
 
 // extremeScale multiplies, in about 3 % of the cases, every size and every spacing of o by one power of two far outside
-// the usual range (2^-12 .. 2^16). Thresholds on magnitudes (a tolerance, a cut-off, an integer conversion) show only there.
+// the usual range (2^-12 .. 2^16); before that, sizeNoise may fill the unused X,Y fields of the size map. Thresholds on magnitudes (a tolerance, a cut-off, an integer conversion) show only there.
 // Multiplication by a power of two keeps dyadic inputs dyadic, so exact comparisons stay exact. The network simplex
 // positioner is left alone: its x coordinates are layer numbers, so a huge width means a huge number of layers.
 func extremeScale(r *rand.Rand, o *core.Opts) bool {
+	sizeNoise(r, o)
 	if o.Positioner == 3 || r.Intn(32) != 0 {
 		return false
 	}
